@@ -155,7 +155,9 @@ def check_large(case, sub="large"):
 
 @st.composite
 def strat_large(draw, tier="quick"):
-    a = draw(gs.st_state(9, 16 if tier == "quick" else 24, max_word=60, max_rowops=15))
+    a = draw(st.one_of(gs.st_state(9, 16 if tier == "quick" else 24, max_word=60, max_rowops=15),
+                       gs.st_state(9, 16 if tier == "quick" else 24, max_word=60, max_rowops=15),
+                       gs.st_state(62, 68, max_word=100, max_rowops=15)))  # beyond 64: integer packing / dtype limits
     n = a["n"]
     kind = draw(st.sampled_from(["indep", "same", "sign", "local", "ent", "few", "few"]))
     extra = []
